@@ -335,10 +335,26 @@ Proof. intros D ids H. unfold tpath_ok in H. apply andb_true_iff in H. destruct 
 Lemma opt_tpath_ident : forall D l, match l with [] => true | s :: r => tpath_ok D (s :: r) end = true -> forallb ident l = true.
 Proof. intros D l H. destruct l as [|x r]; [reflexivity | exact (tpath_ident D _ H)]. Qed.
 
+(* side conditions: chosen by the shape of the goal (no blind apply / vm_compute on open terms) *)
+Ltac hyp := match goal with H : ?g |- ?g => exact H end.
 Ltac side :=
-  first [ apply tabs_ws | apply crlf_ws | apply open_lay | apply sep_lay | apply close_lay | assumption
-        | solve [vm_compute; reflexivity]
-        | solve [apply valok_q; assumption] | solve [apply nobrace_q; assumption] ].
+  lazymatch goal with
+  | |- wsok (tabs _) = true => apply tabs_ws
+  | |- wsok crlf = true => apply crlf_ws
+  | |- layok (list_open _) = true => apply open_lay
+  | |- layok (list_sep _) = true => apply sep_lay
+  | |- layok (list_close _) = true => apply close_lay
+  | |- valok (q _) = true => apply valok_q; hyp
+  | |- nobrace (q _) = true => apply nobrace_q; hyp
+  | |- keyok _ = true => first [hyp | vm_compute; reflexivity]
+  | |- nobrace _ = true => first [hyp | vm_compute; reflexivity]
+  | |- valok _ = true => first [hyp | vm_compute; reflexivity]
+  | |- layok _ = true => first [hyp | vm_compute; reflexivity]
+  | |- ident _ = true => first [hyp | vm_compute; reflexivity]
+  | |- name_ok None = true => reflexivity
+  | |- name_ok _ = true => unfold name_ok; hyp
+  | |- _ => hyp
+  end.
 
 Ltac item_fin E :=
   first [ refine (text_field_good _ _ _ _ _ _ _ _ E); side
